@@ -34,7 +34,31 @@ class Interrupt(BaseException):
     pass
 
 
-EXC_TYPES = [Boom, TypeError, ValueError, KeyError, AttributeError, OSError, Interrupt, IndexError, RuntimeError]
+def _decode_error(msg):
+    return UnicodeDecodeError("utf-8", b"\xff", 0, 1, msg)
+
+
+def _encode_error(msg):
+    return UnicodeEncodeError("ascii", "\xe9", 0, 1, msg)
+
+
+def _yaml_error(msg):
+    import yaml
+    return yaml.YAMLError(msg)
+
+
+def _marked_error(msg):
+    import yaml
+    return yaml.scanner.ScannerError(None, None, msg, None)
+
+
+_decode_error.__name__ = "UnicodeDecodeError"
+_encode_error.__name__ = "UnicodeEncodeError"
+_yaml_error.__name__ = "YAMLError"
+_marked_error.__name__ = "ScannerError"
+# exception factories: the caller's own exceptions, incl. the types the library itself catches or raises internally
+EXC_TYPES = [Boom, TypeError, ValueError, KeyError, AttributeError, OSError, Interrupt, IndexError, RuntimeError,
+             _decode_error, _encode_error, _yaml_error, _marked_error, UnicodeError, LookupError, MemoryError, EOFError]
 
 
 class FaultyWriter:
@@ -555,4 +579,4 @@ def arms(tier):
 
 
 REQUIRED_CLASSES = ["write-fault", "read-fault", "constructor-fault", "representer-fault", "invocations>=3", "at:key", "at:set-member",
-                    "exc:TypeError", "exc:Interrupt", "exc:OSError", "dumper:CSafeDumper", "loader:CSafeLoader", "loader:PathLoader", "dumper:PathDumper"]
+                    "exc:TypeError", "exc:Interrupt", "exc:OSError", "exc:UnicodeDecodeError", "exc:YAMLError", "dumper:CSafeDumper", "loader:CSafeLoader", "loader:PathLoader", "dumper:PathDumper"]
